@@ -32,7 +32,9 @@ ReqClass(r) ==
   IF r.method # "GET" \/ r.path # ExpectedPath(r.pkg, r.ns, r.op) THEN "typed-request-path"
   ELSE IF r.op = "watch" /\ (Range(r.query) # {<<"resourceVersion", "7">>, <<"watch", "true">>} \/ Len(r.query) # 2) THEN "typed-request-query"
   ELSE IF r.op = "watch2" /\ (Range(r.query) # {<<"resourceVersion", "9">>, <<"watch", "true">>} \/ Len(r.query) # 2) THEN "typed-request-query"
-  ELSE IF r.op = "list" /\ \E q \in Range(r.query) : q[1] = "watch" THEN "typed-request-query"
+  ELSE IF r.op = "list" /\ \E q \in Range(r.query) : q[1] \in {"watch", "labelSelector", "fieldSelector"} THEN "typed-request-query"
+  \* the caller asked for everything: whatever paging the client chooses, List returns every object of the resource
+  ELSE IF r.op = "list" /\ ~r.listerr /\ r.listn # r.items THEN "typed-list-incomplete"
   ELSE ""
 
 NotForeign(r, key) == key \notin Range(r.foreign)
